@@ -93,6 +93,11 @@ structure Facts03 where
   /-- a ByteArray member that declares its `encoding` is read with it; the protocol's own (urlsafe base64) is
       only a suggestion for members that declare none                                       (good: true) -/
   bytesDeclaredWins : Bool
+  /-- a method with `_body_style='out_bare'` / `'bare'` hands its single primitive result to HttpRpc like a wrapped one
+      (only the wrapped style has a wrapper to unpack)                                        (good: true) -/
+  bareReturnsServed : Bool
+  /-- a return type that declares a text `encoding` is sent in it; UTF-8 is only the protocol's default (good: true) -/
+  retEncDeclaredWins : Bool
 
 /-! ## Outcome as a monad (the type itself is C08's) -/
 
